@@ -25,6 +25,14 @@ def check_pair(f, ty, ay, tx, ax, st, hy, hx, full=True):
     ok1, s1 = safe(f, ay, ax, est._F1, False)
     ok2, s2 = safe(f, ax, ay, est._F1, False)
     st.count('evaluations', 2)
+    if full:
+        # the same pair with code ranges that do not start at 0 (codes are arbitrary non-negative integers)
+        ok3, s3 = safe(f, ay + 3, ax + 1, est._F1, False)
+        st.count('evaluations')
+        if not ok3:
+            st.violation({'Y': [v + 3 for v in ty], 'X': [v + 1 for v in tx]}, f'exception: {s3}', {'kind': 'exception'})
+        elif not est.near(float(s3), ref):
+            st.violation({'Y': [v + 3 for v in ty], 'X': [v + 1 for v in tx]}, f'codes shifted away from 0: score {float(s3)!r} but plug-in MI={ref!r}', {'kind': 'value_offset'})
     if not (ok1 and ok2):
         st.violation({'Y': ty, 'X': tx}, f'exception: {s1 if not ok1 else s2}', {'kind': 'exception'})
         return
